@@ -176,7 +176,10 @@ func (r *kvRun) compact(name string) {
 	snap.Close()
 	if n0 > 1 {
 		f.Compact()
-	} else if n0 == 1 && len(r.opt.Rollup) == 0 && r.famOpt[name].CompactThreshold == 1 {
+	} else if n0 == 1 && len(r.opt.Rollup) == 0 && r.famOpt[name].CompactThreshold == 1 && !r.image {
+		// (not in histories whose every file-system operation is imaged: the store-level check starts jobs in
+		// several families at once, and a directory copy taken between a file creation of one job and its event
+		// would not be an image of a recorded prefix)
 		kv.VerifCompactStore(r.store)
 	} else {
 		return
